@@ -6,8 +6,18 @@ use lc3_ensemble::sim::device::{ExternalDevice, TimerDevice};
 pub struct TimCtx { pub t: TimerDevice }
 
 fn mk(seed: u64, lo: u32, hi: u32, incl: bool, vect: u8, prio: u8) -> Option<TimerDevice> {
-    if incl { if lo > hi { return None; } Some(TimerDevice::new(Some(seed), lo..=hi, vect, prio)) }
-    else { if lo >= hi { return None; } Some(TimerDevice::new(Some(seed), lo..hi, vect, prio)) }
+    use std::ops::Bound::{Excluded, Included};
+    if incl { if lo > hi { return None; } } else if lo >= hi { return None; }
+    // the same set of values, written in every form `RangeBounds<u32>` allows (chosen by the seed): `lo..hi` / `lo..=hi`,
+    // an unbounded start when lo = 0 (`..hi`, `..=hi`), an excluded start when lo >= 1
+    Some(match (seed % 3, lo, incl) {
+        (1, 0, true) => TimerDevice::new(Some(seed), ..=hi, vect, prio),
+        (1, 0, false) => TimerDevice::new(Some(seed), ..hi, vect, prio),
+        (2, l, true) if l >= 1 => TimerDevice::new(Some(seed), (Excluded(l - 1), Included(hi)), vect, prio),
+        (2, l, false) if l >= 1 => TimerDevice::new(Some(seed), (Excluded(l - 1), Excluded(hi)), vect, prio),
+        (_, _, true) => TimerDevice::new(Some(seed), lo..=hi, vect, prio),
+        (_, _, false) => TimerDevice::new(Some(seed), lo..hi, vect, prio),
+    })
 }
 
 /// the first `n` values the timer's generator yields for this seed/range (s0 is the one drawn by `new`)
